@@ -51,12 +51,16 @@ class Ctx:
         self.distinct = set()
         self.replay_case = None
 
+    def log(self, msg):
+        print("[%s %6.1fs] %s" % (self.pid, time.time() - self.t0, msg), file=sys.stderr, flush=True)
+
     # ------------------------------------------------------------------ TLC on the spec
     def model(self, module, cfg, *, expect_ok=True, count=True, **kw):
         kw.setdefault("workers", 16)
         r = tlc.run(module, cfg, self.work, **kw)
         if expect_ok:
             tlc.must_pass(r, "model check %s/%s" % (module, cfg))
+        self.log("TLC %s/%s: %d distinct / %d generated states, %.1fs" % (module, os.path.basename(cfg), r.distinct, r.generated, r.wall))
         if count:
             self.states += r.distinct
             self.transitions += r.generated
@@ -71,14 +75,44 @@ class Ctx:
         kw.setdefault("workers", 1)
         r = self.model(module, cfg, **kw)
         out = r.prints.get(tag, [])
+        self.log("generated %d %s from %s/%s (%d states, %.1fs)" % (len(out), tag, module, os.path.basename(cfg), r.distinct, r.wall))
         if not out:
             raise Machinery("generator %s/%s produced no %s lines\n%s" % (module, cfg, tag, r.out[-2000:]))
         return out
 
+    def cfg(self, name, text):
+        """Write a generated TLC config into the work directory; returns its path."""
+        fn = os.path.join(self.work, name)
+        with open(fn, "w") as f:
+            f.write(text)
+        return fn
+
     # ------------------------------------------------------------------ trace validation
-    def validate(self, module, cfg, traces, *, shards=16, dfs=False, timeout=3600, env=None, libs=(), heap="6g"):
+    def validate(self, module, cfg, traces, **kw):
         """traces: list of dicts with 'tid' and 'ev'.  Returns list of (trace, line, clause)
-        for every trace the trace specification does not accept."""
+        for every trace the trace specification does not accept.  The diagnostics register
+        is capped, so rejected traces without a diagnostic are validated again on their own."""
+        rejects = self._validate_once(module, cfg, traces, **kw)
+        self.traces += len(traces)
+        final = [r for r in rejects if r[2] != "unmatched"]
+        pending = [r[0] for r in rejects if r[2] == "unmatched"]
+        for _ in range(4):
+            if not pending:
+                break
+            again = self._validate_once(module, cfg, pending, **kw)
+            got = [r for r in again if r[2] != "unmatched"]
+            final += got
+            nxt = [r[0] for r in again if r[2] == "unmatched"]
+            if len(nxt) == len(pending):
+                final += [r for r in again if r[2] == "unmatched"]
+                pending = []
+                break
+            pending = nxt
+        final += [(tr, None, "unmatched") for tr in pending]
+        self.log("validated %d traces with %s: %d rejected" % (len(traces), module, len(final)))
+        return final
+
+    def _validate_once(self, module, cfg, traces, *, shards=16, dfs=False, timeout=3600, env=None, libs=(), heap="6g"):
         if not traces:
             return []
         shards = max(1, min(shards, (len(traces) + 199) // 200))
@@ -108,7 +142,7 @@ class Ctx:
             acc = set(r.prints["ACC"][-1])
             diag = {}
             for (t, l, c) in r.prints["REJ"][-1]:
-                diag.setdefault(t, (l, c))
+                diag[t] = (l, c)  # the deepest (last recorded) failure of the trace
             n = r.prints["NTR"][-1]
             if n != len(parts[i]):
                 raise Machinery("trace count mismatch")
@@ -116,11 +150,9 @@ class Ctx:
                 if k not in acc:
                     l, c = diag.get(k, (None, "unmatched"))
                     rejects.append((tr, l, c))
-            self.transitions += 0
             self.extra.setdefault("trace_states", 0)
             self.extra["trace_states"] += r.distinct
             os.unlink(files[i])
-        self.traces += len(traces)
         return rejects
 
     # ------------------------------------------------------------------ running the real code
